@@ -10,6 +10,7 @@ require (
 	github.com/jilio/ebu/stores/sqlite v0.0.0
 	go.opentelemetry.io/otel/sdk v1.38.0
 	go.opentelemetry.io/otel/sdk/metric v1.38.0
+	modernc.org/sqlite v1.40.1
 )
 
 require (
@@ -28,7 +29,6 @@ require (
 	modernc.org/libc v1.66.10 // indirect
 	modernc.org/mathutil v1.7.1 // indirect
 	modernc.org/memory v1.11.0 // indirect
-	modernc.org/sqlite v1.40.1 // indirect
 )
 
 replace github.com/jilio/ebu => /repo
